@@ -51,6 +51,7 @@ META = {
                 'endpoint-fit': 2000, 'lf.r2:pearson': 500, 'lf.r2:adjusted': 500, 'lf.r2:constant-y': 40,
                 'nontrivial': 1000},
     'scale': {'quick': 1, 'thorough': 20},
+    'shards': {'quick': 16, 'thorough': 16},
     'quick_cases': 4000, 'thorough_cases': 120000,
     'timeout': {'quick': 600, 'thorough': 3000},
     'assumptions': ['np.longdouble has a 64-bit mantissa on this platform (checked at start-up)',
@@ -609,13 +610,14 @@ def setup(ctx, mods):
 # ------------------------------------------------------------------ generator
 
 VLAYOUTS = ['C', 'view', 'i64', 'i64view']
-# layout pairs (y, y_hat): the core pairs are compiled in every shard; the quick tier adds one rotating extra pair per
-# shard (numba compiles one specialisation per function x dtype x layout pair, ~0.3 s each), the thorough tier all 16
-CORE_PAIRS = [('C', 'C'), ('view', 'C'), ('i64', 'C'), ('i64', 'i64')]
-EXTRA_PAIRS = [('view', 'view'), ('i64view', 'i64view'), ('i64view', 'C'), ('view', 'i64'), ('view', 'i64view'),
-               ('i64', 'i64view'), ('C', 'view'), ('C', 'i64')]
+# layout pairs (y, y_hat).  numba compiles one specialisation per function x dtype x layout pair (~0.3 s each), so in
+# the quick tier every shard compiles the two pairs the library itself produces (contiguous / column-view y against a
+# freshly computed y_hat) plus ONE of the 14 other pairs (16 shards cover all 16 pairs); the thorough tier uses all 16
+# pairs in every shard.
 ALL_PAIRS = [(a, b) for a in VLAYOUTS for b in VLAYOUTS]
-CLASSES = ['rand', 'prop', 'equal', 'near', 'zeros', 'const', 'mixed', 'int', 'int-near', 'line']
+CORE_PAIRS = [('C', 'C'), ('view', 'C')]
+OTHER_PAIRS = [p for p in ALL_PAIRS if p not in CORE_PAIRS]
+CLASSES = ['rand', 'prop', 'equal', 'near', 'zeros', 'const', 'mixed', 'int', 'int', 'int-near', 'int-near', 'line']
 PLAYOUTS = ['C', 'F', 'view', 'i64']
 
 
@@ -708,6 +710,8 @@ def gen_case(rng, tier, shard, nshards):
     elif cls == 'int':
         K = int(10 ** rng.uniform(0.3, 6))
         y, yh = rng.integers(0, K + 1, n).astype(float), rng.integers(0, K + 1, n).astype(float)
+        if rng.random() < 0.15:
+            yh = y.copy()
     elif cls == 'int-near':
         K = int(10 ** rng.uniform(0.3, 6))
         y = rng.integers(0, K + 1, n).astype(float)
@@ -719,22 +723,24 @@ def gen_case(rng, tier, shard, nshards):
         yh = np.abs(y + rng.normal(0, 1, n) * mag * 1e-3)
     ints = integral(y) and integral(yh)
     if tier == 'quick':
-        pairs = CORE_PAIRS + [EXTRA_PAIRS[shard % len(EXTRA_PAIRS)]]
+        pairs = CORE_PAIRS + [OTHER_PAIRS[shard % len(OTHER_PAIRS)]]
+        playouts = ['C', PLAYOUTS[1 + shard % 3]]
+        xlayouts = ['C', ['view', 'i64'][shard % 2]]
     else:
-        pairs = ALL_PAIRS
-    if ints:
-        ipairs = [p for p in pairs if p[0].startswith('i64') or p[1].startswith('i64')]
-        pair = pick(rng, ipairs) if rng.random() < 0.85 else pick(rng, pairs)
+        pairs, playouts, xlayouts = ALL_PAIRS, PLAYOUTS, ['C', 'view', 'i64']
+    ipairs = [p for p in pairs if p[0].startswith('i64') or p[1].startswith('i64')]
+    fpairs = [p for p in pairs if p not in ipairs]
+    if ints and ipairs:
+        pair = pick(rng, ipairs) if rng.random() < 0.85 else pick(rng, fpairs)
     else:
-        fpairs = [p for p in pairs if not (p[0].startswith('i64') or p[1].startswith('i64'))]
         pair = pick(rng, fpairs) if rng.random() < 0.7 else ('C', 'C')
     ly, lyh = pair
-    pl = pick(rng, PLAYOUTS) if rng.random() < 0.6 else 'C'
+    pl = pick(rng, playouts) if rng.random() < 0.6 else 'C'
     if pl == 'i64' and not (integral(x) and integral(y)):
-        pl = 'F'
-    lx = pick(rng, ['C', 'view', 'i64']) if rng.random() < 0.5 else 'C'
+        pl = 'C' if tier == 'quick' else 'F'
+    lx = pick(rng, xlayouts) if rng.random() < 0.5 else 'C'
     if lx == 'i64' and not integral(x):
-        lx = 'view'
+        lx = 'C' if tier == 'quick' else 'view'
     xs = max(float(np.max(np.abs(x))), 1e-300)
     coef = [float(rng.normal(0, 1) * mag), float(rng.normal(0, 1) * mag / xs)]
     if rng.random() < 0.2:
@@ -778,7 +784,7 @@ def run_case(ctx, mods, case):
         _call(ctx, f'metrics.{name}', getattr(M, name), y, yh)
     if n >= 3:
         _call(ctx, 'metrics.r2', M.r2, y, yh, R2.adjusted)
-    if case['eps'] is not None and case['ly'] in ('C', 'view') and case['lyh'] == 'C':
+    if case['eps'] is not None and case['ly'] == 'C' and case['lyh'] == 'C':
         _call(ctx, 'metrics.smape', M.smape, y, yh, case['eps'])
         if nonneg:
             _call(ctx, 'metrics.rpd', M.rpd, y, yh, case['eps'])
